@@ -117,6 +117,8 @@ func TestC09(t *testing.T) {
 		"entry counts are compared with the model only for model-generated documents")
 	defer vlib.CleanupScratch()
 	h.Require("accepted")
+	// failing inputs of the native fuzz arm (thorough tier, driver-run) replay through this campaign
+	vlib.Enum(h, "native-fuzz", false, func(func(string) bool) {}, c09Single)
 
 	runRegression(h, c09Regression)
 	vlib.Enum(h, "fixtures", false, func(yield func(string) bool) {
